@@ -208,6 +208,9 @@ func cloneVal(v Val) Val {
 			return AbsStr{Exact: true, Syms: append([]int(nil), x.Syms...)}
 		}
 		return x
+	case RValue:
+		x.V = cloneVal(x.V)
+		return x
 	case *FuncV:
 		n := &FuncV{Fn: x.Fn, Bind: make([]Val, len(x.Bind))}
 		for i, f := range x.Bind {
@@ -331,6 +334,16 @@ func fmtVal(v Val, ptrName func(int) string) string {
 		return fmt.Sprintf("func(%v|%s)", x.Fn, strings.Join(parts, ","))
 	case MapV:
 		return "map" + ptrName(x.Obj)
+	case RType:
+		return "rtype(" + x.T.String() + ")"
+	case RValue:
+		if !x.Valid {
+			return "rvalue(invalid)"
+		}
+		if x.Addr {
+			return "rvalue(" + x.T.String() + "@" + fmtVal(x.P, ptrName) + ")"
+		}
+		return "rvalue(" + x.T.String() + ":" + fmtVal(x.V, ptrName) + ")"
 	case *MapIterV:
 		return fmt.Sprintf("mapiter(%s,%v,%d)", ptrName(x.Obj), x.Order, x.Pos)
 	case *MapObjV:
@@ -370,6 +383,12 @@ func valRefs(v Val, out *[]int) {
 		}
 	case IfaceV:
 		valRefs(x.V, out)
+	case RValue:
+		if x.Addr {
+			*out = append(*out, x.P.Obj)
+		} else {
+			valRefs(x.V, out)
+		}
 	case *MapObjV:
 		for i := range x.K {
 			valRefs(x.K[i], out)
